@@ -53,7 +53,7 @@ structure HashOn (H : Bytes → Bytes) (U : T → Prop) : Prop where
     (u.hash (hashes32 H len)).val = (v.hash (hashes32 H len)).val → u = v
   nz : ∀ u : T, U u → u ≠ .empty → (u.hash (hashes32 H len)).val ≠ zeroSum
 
-theorem HashOK.toOn {H : Bytes → Bytes} (hok : HashOK H) : HashOn H (fun _ => True) where
+theorem _root_.FuelVerif.SmtBytes.HashOK.toOn {H : Bytes → Bytes} (hok : HashOK H) : HashOn H (fun _ => True) where
   len := hok.len
   inj := fun u v _ _ h => hash_injective (hashes32 H hok.len) (collisionFree_bytes H hok) u v (Subtype.ext h)
   nz := by
